@@ -316,7 +316,8 @@ func authenticateConnection(p2id participant2ID, conn net.Conn, logger Logger) (
 	sig := h.Signature
 	h.Signature = nil
 
-	if !ecdsa.VerifyASN1(pk, sha256Digest(h.Bytes()), sig) {
+	signed, err := asn1.Marshal(h)
+	if err != nil || !ecdsa.VerifyASN1(pk, sha256Digest(signed), sig) {
 		logger.Warnf("Signature mismatch")
 		return "", 0, false
 	}
